@@ -99,21 +99,40 @@ def check_state(st: Stats, cfg: EnvCfg, env, v, R: frozenset, sol: dict, hist, f
 
 
 def unit(u) -> Stats:
-    n, v, comp, gap_name, tag, known_extra, seed = u
+    n, vs, comp, gap_name, tag, known_extra, seed = u
     ftol = 0.0
-    if isinstance(v, tuple) and v and v[0] == "GEN":
-        v = gens.draw(v[1], v[2], v[3])
-        ftol = gens.float_tol(v, n)
+    games = []
+    for v in (vs if isinstance(vs, list) else [vs]):
+        if isinstance(v, tuple) and v and v[0] == "GEN":
+            v = gens.draw(v[1], v[2], v[3])
+            ftol = max(ftol, gens.float_tol(v, n))
+        games.append(tuple(v))
     st = Stats()
-    cfg = EnvCfg(n, [v], comp, gap_name, None, tag, ftol, known_extra)
-    env, _ = cfg.make()
-    sol = solvers(seed)
+    cfg = EnvCfg(n, games, comp, gap_name, None, tag, ftol, known_extra)
+    env, script = cfg.make()
+    sol = solvers(seed)          # ONE set of solver objects for all episodes (as evaluate() with one process uses them)
+    for episode in range(len(games)):
+        if episode:
+            env.reset()
+            for s_ in sol.values():
+                s_.after_reset(env)
+        v = games[(script.calls - 1) % len(games)]
+        walk(st, cfg, env, v, sol, ftol, episode)
+        if st.nviol >= 3:
+            break
+    st.traces += 1
+    if n == 3 and gap_name == "l1_norm" and comp == SA[0] and tag.startswith("exact"):
+        st.sample({"n": n, "hidden_games": [list(g) for g in games], "computer": comp, "gap": gap_name, "solvers": list(sol)})
+    return st
+
+
+def walk(st: Stats, cfg: EnvCfg, env, v, sol, ftol: float, episode: int) -> None:
+    """Walk the long-lived env through the whole lattice (step up / unstep down), query every solver at every node."""
     m = len(cfg.ex)
-    # walk one long-lived env through the whole lattice (step up / unstep down), query every solver at every node
-    hist: list = []
+    hist: list = [("reset",)] * episode
     visited = {frozenset()}
     R: frozenset = frozenset()
-    check_state(st, cfg, env, v, R, sol, hist, ftol)
+    check_state(st, cfg, env, v, R, sol, list(hist), ftol)
     st.states += 1
     stack: list = []
     idx = 0
@@ -138,10 +157,6 @@ def unit(u) -> Stats:
             env.unstep(a)
             hist.append(("unstep", a))
             R = R - {a}
-    st.traces += 1
-    if n == 3 and gap_name == "l1_norm" and comp == SA[0] and tag.startswith("exact"):
-        st.sample({"n": n, "hidden": list(v), "computer": comp, "gap": gap_name, "solvers": list(sol), "env_states": len(visited)})
-    return st
 
 
 def non_symmetric(g) -> bool:
@@ -157,16 +172,18 @@ def run(run: Run) -> None:
     pick3 = [g3[(101 * (seed + 1) + 37 * k) % len(g3)] for k in range(6 if quick else 24)]
     for k, g in enumerate(pick3):
         gv = A.shifted(g, A.ADD3) if k % 2 else g
+        other = A.shifted(pick3[(k + 1) % len(pick3)], A.ADD3) if not k % 2 else pick3[(k + 2) % len(pick3)]
         for comp in SA:
             for gap_name in (("exploitability", "l1_norm") if quick else gaps.NAMES):
-                us.append((3, gv, comp, gap_name, f"exact3#{k}", (), seed))
+                us.append((3, [gv, other, A.scaled(gv, 0.25)], comp, gap_name, f"exact3#{k}", (), seed))
     reps = [g for g in A.a4_sa_reps(seed) if non_symmetric(g)]
     pick4 = [reps[(17 * (seed + 1) + 29 * k) % len(reps)] for k in range(4 if quick else 12)]
     triples = tuple(s for s in range(16) if A.popcount(s) == 3)
     for k, g in enumerate(pick4):
         gv = A.shifted(g, A.ADD4) if k % 2 else g
         if quick:
-            us.append((4, gv, SA[k % 2], ("l1_norm", "exploitability")[k % 2], f"exact4#{k}", triples if k else (), seed))
+            other = A.shifted(pick4[(k + 1) % len(pick4)], A.ADD4)
+            us.append((4, [gv, other] if k else gv, SA[k % 2], ("l1_norm", "exploitability")[k % 2], f"exact4#{k}", triples if k else (), seed))
         else:
             for comp in SA:
                 for gap_name in ("exploitability", "l1_norm"):
@@ -199,15 +216,22 @@ def replay(doc: dict):
         from .c13_expected import replay_expected
         return replay_expected(doc)
     cfg = EnvCfg(doc["n"], doc["games"], doc["computer"], doc["gap"], None, doc.get("tag", ""), doc.get("float_tol", 0.0), tuple(doc.get("known_extra", ())))
-    env, _ = cfg.make()
+    env, script = cfg.make()
     R = frozenset()
-    for op, a in [tuple(h) for h in doc["history"]]:
-        getattr(env, op)(a)
-        R = R | {a} if op == "step" else R - {a}
     st = Stats()
     sol = solvers(doc.get("seed", 0))
     if doc.get("solver"):
         sol = {doc["solver"]: sol[doc["solver"]]}
-    check_state(st, cfg, env, cfg.games[0], R, sol, [tuple(h) for h in doc["history"]], cfg.float_tol)
+    # a solver that carries state across episodes only misbehaves after it has played earlier episodes: play them
+    for h in [tuple(h) for h in doc["history"]]:
+        if h[0] == "reset":
+            scratch = Stats()
+            walk(scratch, cfg, env, cfg.games[(script.calls - 1) % len(cfg.games)], sol, cfg.float_tol, 0)
+            env.reset()
+            R = frozenset()
+        else:
+            getattr(env, h[0])(h[1])
+            R = R | {h[1]} if h[0] == "step" else R - {h[1]}
+    check_state(st, cfg, env, cfg.games[(script.calls - 1) % len(cfg.games)], R, sol, [tuple(h) for h in doc["history"]], cfg.float_tol)
     msgs = [v["message"] for v in st.violations]
     return bool(msgs), "; ".join(msgs) if msgs else f"solver(s) {list(sol)} behave as specified at revealed set {sorted(R)}"
